@@ -448,7 +448,9 @@ theorem fc_lookup (anno : Anno) (r : FcRow) :
   · intro hv he hc hn
     have : anno.genes.find? (fun g => unversioned g.id == r.gene5) = none := by
       rw [List.find?_eq_none]; intro g hg; simpa using hn g hg
-    simp [fcGenes, hv, Anno.findUnversioned, he, hc, this]
+    have h2 : anno.genes.find? (fun g => !isParY g.id && unversioned g.id == r.gene5) = none := by
+      rw [List.find?_eq_none]; intro g hg; simp [hn g hg]
+    simp [fcGenes, hv, Anno.findUnversioned, he, hc, this, h2]
 
 /-- a row whose conversion raises `GeneNotFoundError` is skipped and counted as "invalid gene
 ID" — with and without `--skip-failed` — and contributes no record -/
@@ -549,9 +551,46 @@ theorem findUnversioned_mem {anno : Anno} {id : String} {g : GeneEntry}
     | some g' => simp [hf] at h; subst h; exact (find_mem hf).1
   · split at h
     · cases h
-    · cases hf : anno.genes.find? (fun g => unversioned g.id == id) with
-      | none => simp [hf] at h
-      | some g' => simp [hf] at h; subst h; exact List.mem_of_find?_eq_some hf
+    · cases hf1 : anno.genes.find? (fun g => !isParY g.id && unversioned g.id == id) with
+      | some g' => simp [hf1] at h; subst h; exact List.mem_of_find?_eq_some hf1
+      | none =>
+        cases hf : anno.genes.find? (fun g => unversioned g.id == id) with
+        | none => simp [hf1, hf] at h
+        | some g' => simp [hf1, hf] at h; subst h; exact List.mem_of_find?_eq_some hf
+
+/-- **Pseudo-autosomal genes.**  When the annotation lists a gene twice (`<id>` on chrX and
+`<id>_PAR_Y` on chrY), an unversioned FusionCatcher id resolves to the copy that is NOT the
+`_PAR_Y` one, whatever the order of the two in the GTF: the look-up never returns a `_PAR_Y` gene
+while a non-`_PAR_Y` gene with that unversioned id exists. -/
+theorem fc_par_y_never_preferred (anno : Anno) (id : String) (g : GeneEntry)
+    (he : anno.ensembl = false) (h : anno.findUnversioned id = .ok g)
+    (hx : ∃ x ∈ anno.genes, isParY x.id = false ∧ unversioned x.id = id) :
+    isParY g.id = false := by
+  obtain ⟨x, hxm, hxp, hxu⟩ := hx
+  unfold Anno.findUnversioned at h
+  simp only [he] at h
+  cases hc : hasCollision (anno.genes.map (·.id)) with
+  | true => simp [hc] at h
+  | false =>
+    simp only [hc] at h
+    cases hf1 : anno.genes.find? (fun g => !isParY g.id && unversioned g.id == id) with
+    | some g' =>
+      simp [hf1] at h; subst h
+      have := List.find?_some hf1
+      simp at this; exact this.1
+    | none =>
+      rw [List.find?_eq_none] at hf1
+      have := hf1 x hxm
+      simp [hxp, hxu] at this
+
+/-- non-vacuity: chrX copy listed first or second, the look-up returns it -/
+example :
+    let gx : GeneEntry := { (default : GeneEntry) with id := "ENSG0001.5" }
+    let gy : GeneEntry := { (default : GeneEntry) with id := "ENSG0001.5_PAR_Y" }
+    (match ({ (default : Anno) with genes := [gx, gy], ensembl := false }).findUnversioned "ENSG0001" with
+      | .ok g => g.id | .error _ => "") = "ENSG0001.5" ∧
+    (match ({ (default : Anno) with genes := [gy, gx], ensembl := false }).findUnversioned "ENSG0001" with
+      | .ok g => g.id | .error _ => "") = "ENSG0001.5" := by decide
 
 theorem fc_gene_in_anno (anno : Anno) (genome : Genome) (row : FcRow) (rs : List FusionRec)
     (r : FusionRec) (h : convertFc anno genome row = .ok rs) (hr : r ∈ rs) :
